@@ -47,6 +47,96 @@ pub fn gen_soup(r: &mut Rng, t: &[OpCfg], len: usize) -> String {
     s
 }
 
+
+/// Reference tokenizer written from the statement of C13 (not from parser.rs): literals are runs of
+/// digits and dots with at most one dot (a lone dot is no literal); anything in braces is one
+/// variable; the longest operator name that matches and is *eligible* wins, where a name without
+/// binary role is eligible only if it is not continued by a character that would make
+/// name+character an identifier; otherwise a maximal identifier is a variable.
+/// `None`: the text is outside what the statement decides (commas, unclosed braces).
+pub fn ref_lex(text: &str, t: &[OpCfg]) -> Option<String> {
+    fn ident_start(c: char) -> bool {
+        c.is_ascii_alphabetic() || c == '_' || ('α'..='ω').contains(&c) || ('Α'..='Ω').contains(&c)
+    }
+    fn ident_cont(c: char) -> bool {
+        ident_start(c) || c.is_ascii_digit()
+    }
+    fn is_ident(s: &[char]) -> bool {
+        !s.is_empty() && ident_start(s[0]) && s[1..].iter().all(|c| ident_cont(*c))
+    }
+    let cs: Vec<char> = text.chars().collect();
+    let mut out: Vec<String> = vec![];
+    let mut i = 0;
+    while i < cs.len() {
+        let c = cs[i];
+        if c == ' ' {
+            i += 1;
+            continue;
+        }
+        if c == '(' {
+            out.push("(".into());
+            i += 1;
+            continue;
+        }
+        if c == ')' {
+            out.push(")".into());
+            i += 1;
+            continue;
+        }
+        if c == ',' {
+            return None;
+        }
+        if c == '{' {
+            let close = cs[i..].iter().position(|x| *x == '}')?;
+            let name: String = cs[i + 1..i + close].iter().collect();
+            out.push(format!("v{}", hex(&name)));
+            i += close + 1;
+            continue;
+        }
+        // literal
+        let run: Vec<char> = cs[i..].iter().take_while(|x| x.is_ascii_digit() || **x == '.').cloned().collect();
+        let dots = run.iter().filter(|x| **x == '.').count();
+        if (run.len() > 1 && dots < 2) || (run.len() == 1 && dots == 0) {
+            let lit: String = run.iter().collect();
+            out.push(format!("nL{}", lit));
+            i += run.len();
+            continue;
+        }
+        // operators: longest eligible name
+        let mut best: Option<(usize, usize)> = None; // (length in chars, index)
+        for (k, op) in t.iter().enumerate() {
+            let nm: Vec<char> = op.name.chars().collect();
+            if nm.is_empty() || i + nm.len() > cs.len() || cs[i..i + nm.len()] != nm[..] {
+                continue;
+            }
+            let eligible = op.bin.is_some()
+                || i + nm.len() == cs.len()
+                || !is_ident(&cs[i..i + nm.len() + 1]);
+            if eligible && best.map(|b| nm.len() > b.0).unwrap_or(true) {
+                best = Some((nm.len(), k));
+            }
+        }
+        if let Some((len, k)) = best {
+            if t[k].konst {
+                out.push(format!("nK{}", k));
+            } else {
+                out.push(format!("o{}", k));
+            }
+            i += len;
+            continue;
+        }
+        if ident_start(c) {
+            let n = 1 + cs[i + 1..].iter().take_while(|x| ident_cont(**x)).count();
+            let name: String = cs[i..i + n].iter().collect();
+            out.push(format!("v{}", hex(&name)));
+            i += n;
+            continue;
+        }
+        return Some("E".into());
+    }
+    Some(out.join(" "))
+}
+
 pub fn gen(r: &mut Rng, _tier: &str, i: usize, stats: &mut BTreeMap<String, u64>) -> String {
     let t = gen_table(r);
     let fam = i % 6;
@@ -124,11 +214,15 @@ pub fn run(f: &[&str]) -> String {
     let t = table_from_field(f[0]);
     set_table(&t);
     let text = unhex(f[2]);
+    let expect = ref_lex(&text, &t).unwrap_or_else(|| "-".to_string());
     crate::catch(move || {
         let ops = SymOps::make();
-        match exmex::verif::tokenize::<Sym, _>(&text, &ops, NumberMatcher::is_literal, false) {
-            Ok(toks) => format!("toks={}", show_tokens(&toks)),
-            Err(_) => "toks=E".to_string(),
-        }
+        let toks = match exmex::verif::tokenize::<Sym, _>(&text, &ops, NumberMatcher::is_literal, false) {
+            Ok(toks) => show_tokens(&toks),
+            Err(_) => "E".to_string(),
+        };
+        // `ref`: "ok" when the documented tokenisation (reference lexer above) agrees, or does not decide
+        let verdict = if expect == "-" || expect == toks { "ok".to_string() } else { format!("expected[{}]", expect) };
+        format!("toks={}\tref={}", toks, verdict)
     })
 }
